@@ -98,6 +98,8 @@ C = [
   [("pkg/vm/stackitem/json.go", "\t\tif err := CheckIntegerSize(val); err != nil {\n\t\t\treturn nil, mkErrValue(err)\n\t\t}\n", "")]),
  ("C17-json-number-unchecked", "C17", "decoder-panics", "FromJSON builds an Integer from a JSON number without the size check (the repaired defect)",
   [("pkg/vm/stackitem/json.go", "\t\tif err = CheckIntegerSize(num); err != nil {\n\t\t\treturn nil, fmt.Errorf(\"%w (%w)\", ErrInvalidValue, err)\n\t\t}\n", "")]),
+ ("C17-compressed-flag-sticky", "C17", "compress-frame", "the Compressed flag survives from the previous encoding (the repaired defect)",
+  [("pkg/network/message.go", "\tm.Flags &^= Compressed\n\tif enableCompression {", "\tif m.Flags&Compressed == 0 && enableCompression {")]),
 ]
 
 root = "/verif/controls"
